@@ -63,6 +63,28 @@ def correspondence(ctx):
                 bb.check(ctx, "exhaustive-T%d" % T, scns, comparators(cb), shared, nontrivial=lambda s, m: len(m["delivered"]) > 0)
         finally:
             sd.close()
+    # ranges on indexes that also hold competitor records (reorged-out fully validated branches, stale siblings): --end at the
+    # height of a competitor must still deliver the slice of the active chain (per-block outputs = slice of the whole run)
+    from .. import gen_index as GI
+    for k in range(ctx.n(30, 200)):
+        s0, active = GI.competitor_scenario(r, coin="bitcoin", callback="csvdump", kinds=["reorged", "reorged", "stale", "header-only"])
+        T = s0.meta["T"]
+        whole = s0.run_impl()
+        ends = sorted(set(s0._comp_heights + [r.randrange(1, T + 1)]))
+        for e in ends:
+            if e < 1 or e > T:
+                continue
+            sc = K.Scenario(coin="bitcoin", callback="csvdump", start=r.randrange(0, e), stop=e)
+            sc.kvs, sc.files = s0.kvs, s0.files
+            sc.meta = {"T": T, "competitors": s0.meta["competitors"], "k": k}
+            impl, model = bb.check(ctx, "range-with-competitors", [sc], comparators("csvdump"), nontrivial=lambda s, m: True)
+            res = impl[0]
+            if whole.exit == 0 and res.exit == 0:
+                wb = next((whole.rows(n) for n in whole.final_files() if n.startswith("blocks-")), [])
+                rb_ = next((res.rows(n) for n in res.final_files() if n.startswith("blocks-")), [])
+                want = [l for l in wb if sc.start <= int(l.split(";")[1]) <= e]
+                if rb_ != want:
+                    ctx.disagree("slice-law", bb.describe(sc), {"rows": [x[:80] for x in rb_[-2:]]}, {"slice_of_whole_run": [x[:80] for x in want[-2:]]}, True, {"scenario": bb.scenario_dump(sc), "observable": "range = slice of whole chain"})
     # rejected option pairs: s >= e must be refused (exit != 0, nothing produced)
     base = K.Scenario(coin="bitcoin")
     GC.simple_layout(base, GC.gen_chain(r, "bitcoin", 4, max_txs=1, scripts=scripts))
